@@ -917,7 +917,14 @@ func (h *hist) opEndBlock(dt time.Duration) {
 		h.halted = true
 		h.steps = append(h.steps, "("+opc+", "+h.haltObs().coq(h.ids)+")")
 		sig := "C15:endblock-error"
-		if h.govSendExecuted {
+		spend := h.govSendExecuted
+		for _, info := range h.props {
+			// a send from the module account that may have executed inside this very block
+			if info.GovSend != nil && info.Activated && !info.Closed {
+				spend = true
+			}
+		}
+		if spend {
 			sig = "C15:gov-account-spend:endblock-halts"
 		}
 		h.fail(sig, fmt.Sprintf("the end blocker returned an error, the block cannot be finalized: %v", err))
